@@ -4,6 +4,7 @@ package c09
 import (
 	"fmt"
 	"github.com/enbility/spine-go/model"
+	"github.com/enbility/spine-go/util"
 	"sort"
 	"strings"
 	"testing"
@@ -242,9 +243,12 @@ func TestBindings(t *testing.T) {
 		m := &machine{w: regs.NewWithUnannounced(3, silent), binds: map[regs.Key]bool{}}
 		defer m.w.Teardown()
 		t.Repeat(map[string]func(*rapid.T){
-			"bind":   m.bind,
-			"bind2":  m.bind,
-			"unbind": m.unbind,
+			"bind":        m.bind,
+			"bind2":       m.bind,
+			"unbind":      m.unbind,
+			"unbind2":     m.unbind,
+			"rediscovery": m.rediscovery,
+			"subEntity":   m.subEntityGoesAndComes,
 		})
 		nt := m.contention || m.multi
 		world.Record(world.Hash(m.ops, regs.SortedKeys(m.binds)), nt, fmt.Sprintf("contention/%v", m.contention), fmt.Sprintf("multi/%v", m.multi))
@@ -252,6 +256,65 @@ func TestBindings(t *testing.T) {
 			world.Sample(map[string]any{"history": m.hist})
 		}
 	}))
+}
+
+// rediscovery: a peer that has announced itself sends its detailed discovery data once more (a second reply to the
+// stack's read, as after the application asked again). Nothing is added or removed by it: the registry stays exactly
+// as it is, and the bindings in it can be deleted afterwards like before (the unbind operation draws them).
+func (m *machine) rediscovery(t *rapid.T) {
+	pi := rapid.IntRange(0, len(m.w.Peers)-1).Draw(t, "peer")
+	p := m.w.Peers[pi]
+	if p.Ents == nil {
+		t.Skip("the peer has not announced itself")
+	}
+	p.Send(p.Msg(model.CmdClassifierTypeReply, p.NM(), world.LocalNM(), false, p.DiscoveryRef, model.CmdType{NodeManagementDetailedDiscoveryData: p.DiscoveryData(p.Ents, nil)}))
+	m.w.Sync()
+	m.w.Events.Drain()
+	m.logf("peer%d sends its discovery data again", pi+1)
+	m.ops = append(m.ops, "rediscovery")
+	m.checkRegistry(t, "rediscovery")
+}
+
+// subEntityGoesAndComes: a peer announces its sub entity [2,1] as removed and, in the same operation, as added again
+// (the vehicle at a wallbox). The bindings held by client features of [2,1] go with it; every other binding - of the
+// parent entity [2] in particular, whose address is a prefix of [2,1] - stays.
+func (m *machine) subEntityGoesAndComes(t *rapid.T) {
+	pi := rapid.IntRange(0, len(m.w.Peers)-1).Draw(t, "peer")
+	p := m.w.Peers[pi]
+	if p.Ents == nil {
+		t.Skip("the peer has not announced itself")
+	}
+	var sub world.EntSpec
+	for _, e := range p.Ents {
+		if len(e.Addr) == 2 && e.Addr[0] == 2 && e.Addr[1] == 1 {
+			sub = e
+		}
+	}
+	if sub.Addr == nil {
+		t.Skip("no sub entity")
+	}
+	notify := func(change model.NetworkManagementStateChangeType, ent world.EntSpec) {
+		cmd := model.CmdType{Function: util.Ptr(model.FunctionTypeNodeManagementDetailedDiscoveryData), Filter: []model.FilterType{*model.NewFilterTypePartial()},
+			NodeManagementDetailedDiscoveryData: p.DiscoveryData([]world.EntSpec{ent}, &change)}
+		p.Send(p.Msg(model.CmdClassifierTypeNotify, p.NM(), world.LocalNM(), false, nil, cmd))
+		m.w.Sync()
+	}
+	notify(model.NetworkManagementStateChangeTypeRemoved, world.EntSpec{Addr: sub.Addr, Type: sub.Type})
+	subRefPrefix := regs.Ref{Ent: sub.Addr, Feat: 0}.String()
+	subRefPrefix = subRefPrefix[:strings.LastIndex(subRefPrefix, "/")+1]
+	for k := range m.binds {
+		if k.Peer == pi && strings.HasPrefix(k.Client, subRefPrefix) {
+			delete(m.binds, k)
+		}
+	}
+	m.logf("peer%d announces its sub entity %v as removed", pi+1, sub.Addr)
+	m.w.Events.Drain()
+	m.checkRegistry(t, "sub-entity-removed")
+	notify(model.NetworkManagementStateChangeTypeAdded, sub)
+	m.w.Events.Drain()
+	m.logf("peer%d announces its sub entity %v again", pi+1, sub.Addr)
+	m.ops = append(m.ops, "sub-entity")
+	m.checkRegistry(t, "sub-entity-added-again")
 }
 
 func refOfAddr(a *model.FeatureAddressType) string {
